@@ -71,6 +71,18 @@ def handle : List String → String
       | some b => toString b
       | none => "panic:index"
     | _, _ => "bad-op"
+  | ["conv", k, v] =>             -- string(x), x of integer kind k holding v
+    match IntKind.parse k, v.toInt? with
+    | some k, some v => if k.holds v then toHex (intToString k v) else "bad-op"
+    | _, _ => "bad-op"
+  | ["sconv", _, v] =>            -- specification: the encoding of the VALUE, whatever its kind
+    match v.toInt? with
+    | some v => toHex (GV.Spec.Utf8.encode v)
+    | none => "bad-op"
+  | ["convshape", k] =>
+    match IntKind.parse k with
+    | some k => convShape k
+    | none => "bad-op"
   | ["encstr", h] =>              -- the literal text emitted for a Go string
     match parseHex h with
     | some s => toHex (GV.StrLit.encodeString s)
